@@ -150,6 +150,11 @@ func (p *flagParser) parse() (interface{}, error) {
 			break
 		}
 
+		if p.cfg.IgnoreCommas {
+			// commas build no arrays: nothing may follow a complete value
+			return nil, fmt.Errorf("unexpected input after value")
+		}
+
 		if err := p.expectChar(','); err != nil {
 			return nil, err
 		}
